@@ -82,7 +82,11 @@ func (c14) Batch(seed uint64, wid, batch, count int, deadline time.Time, emit fu
 		if sc.Sim.Knobs != nil {
 			c["knob_runs"]++
 		}
-		c["sched_"+schedName(sc.Sim.Sched)]++
+		if len(sc.Sim.SyncPoints) > 0 {
+			c["sched_pct_sync_points"]++
+		} else {
+			c["sched_"+schedName(sc.Sim.Sched)]++
+		}
 		for k, v := range res.Overlap {
 			c["probe_overlap_"+k] += int64(v)
 		}
